@@ -21,7 +21,7 @@ RULE = ("schemas with required fields (with and without defaults), schema-level 
         "are own required fields / schema validators of a disabled sub-configuration; inserted list items with a "
         "missing required field must be rejected; non-trivial = >= 1 returning call judged plus >= 1 further call (returning or raising); distinct = "
         "distinct (schema, calls)")
-REQUIRED = ("trees_with_a_section_given_as_configuration_object", "same_file_loaded_again_after_in_place_change", "feature_flags_redeclared_as_plain_booleans", "schemas_with_shared_validator_decorator", "schemas_with_sections_named_like_config_methods", "sections_shared_with_a_second_parent", "loads_with_empty_required_values", "reinsertions_of_invalidated_members", "calls_returned_judged", "calls_raised", "required_walks", "validator_log_checks", "collect_mode_compared",
+REQUIRED = ("documents_listing_feature_flags_last", "config_types_with_validators_registered_after_make_type", "trees_with_a_section_given_as_configuration_object", "same_file_loaded_again_after_in_place_change", "feature_flags_redeclared_as_plain_booleans", "schemas_with_shared_validator_decorator", "schemas_with_sections_named_like_config_methods", "sections_shared_with_a_second_parent", "loads_with_empty_required_values", "reinsertions_of_invalidated_members", "calls_returned_judged", "calls_raised", "required_walks", "validator_log_checks", "collect_mode_compared",
             "exemption_cases_judged", "list_item_insertions_judged", "call:load_tree", "call:loads", "call:load", "call:validate",
             "flags_off_seen", "failing_validators_seen")
 ASSUMPTIONS = ["one-directional: nothing is demanded of calls that raise, except the exemption of disabled sub-configurations",
@@ -48,6 +48,8 @@ def decorate(rng, node, depth=0):
         if len(sch["validators"]) > 1 and rng.random() < 0.5:
             sch["shared_decorator"] = True
             rng.shuffle(sch["validators"])
+    if node.get("kind") == "ctype" and sch.get("validators") and rng.random() < 0.4:
+        node["late_validators"] = True
     for ch in sch["fields"]:
         if ch["kind"] in ("schema", "ctype"):
             decorate(rng, ch, depth + 1)
@@ -78,6 +80,26 @@ def _empty_some_required(rng, node, tree):
     return done
 
 
+def _flags_last(node, tree):
+    if not isinstance(tree, dict):
+        return tree
+    kids = {ch["key"]: ch for ch in model.fields_of(node)["fields"]}
+    out, flags = {}, {}
+    for k, v in tree.items():
+        ch = kids.get(k)
+        if ch is not None and ch["kind"] == "field" and ch["family"] == "flag":
+            flags[k] = v
+        elif ch is not None and ch["kind"] in ("schema", "ctype"):
+            out[k] = _flags_last(ch, v)
+        elif ch is not None and ch["kind"] == "field" and ch["family"] == "list" and ch.get("item") and ch["item"]["kind"] != "field" \
+                and isinstance(v, list):
+            out[k] = [_flags_last(ch["item"], it) for it in v]
+        else:
+            out[k] = v
+    out.update(flags)
+    return out
+
+
 def generate(rng, ctx):
     thorough = ctx.tier == "thorough"
     fams = ["str", "int", "float", "bool", "port", "host", "loglevel", "list", "dict", "str", "int"]
@@ -95,6 +117,25 @@ def generate(rng, ctx):
             schema["method_like_names"] = True
     env = gen.GEN_ENV
     calls = []
+    if rng.random() < 0.2:
+        # a section that is switched off by default holds a list of items that have a feature flag of their own (on) and a
+        # required field; a document gives an incomplete item FIRST and switches the section on AFTERWARDS
+        keys = gen.pick_keys(rng, 6, avoid={ch["key"] for ch in schema["fields"]})
+        item = {"kind": "schema", "key": "", "fields": [
+            {"kind": "field", "key": keys[0], "family": "flag", "params": {"default": True}},
+            {"kind": "field", "key": keys[1], "family": "str", "params": {"required": True}},
+            {"kind": "field", "key": keys[2], "family": "int", "params": {"default": 1}}]}
+        if rng.random() < 0.5:
+            item["validators"] = ["fail"]
+            item["fields"][1]["params"].pop("required")
+        sec = {"kind": "schema", "key": keys[3], "fields": [
+            {"kind": "field", "key": keys[4], "family": "list", "params": {}, "item": item},
+            {"kind": "field", "key": keys[5], "family": "flag", "params": {"default": False}}]}
+        if rng.random() < 0.5:
+            sec["fields"].reverse()
+        schema["fields"].append(sec)
+        calls.append({"call": rng.choice(["load_tree", "loads", "load"]), "fmt": rng.choice(trees.FORMATS), "flags_last": True,
+                      "tree": {keys[3]: {keys[4]: [{keys[2]: 5}], keys[5]: True}}})
     for _ in range(rng.randrange(2, 9 if thorough else 6)):
         kind = rng.choice(["load_tree", "load_tree", "loads", "load", "validate", "insert"])
         call = {"call": kind}
@@ -105,6 +146,10 @@ def generate(rng, ctx):
             elif rng.random() < 0.2:
                 call["emptied"] = _empty_some_required(rng, schema, call["tree"])
             call["fmt"] = rng.choice(trees.FORMATS)
+            if rng.random() < 0.35:
+                # the document lists the feature flags of every section after the section's other keys
+                call["tree"] = _flags_last(schema, call["tree"])
+                call["flags_last"] = True
             if kind == "load" and rng.random() < 0.5:
                 # the same file again: the configuration is changed in place after a load (a required value is taken away),
                 # then the file -- untouched, or rewritten under the same name -- is loaded once more
@@ -227,6 +272,9 @@ def run(case, ctx, res):
     returned = raised = 0
     if case["schema"].get("method_like_names"):
         res.count("schemas_with_sections_named_like_config_methods")
+    if any(nd.get("late_validators") for _p, nd in spec.walk(case["schema"])) or any(
+            (nd.get("item") or {}).get("late_validators") for _p, nd in spec.walk(case["schema"])):
+        res.count("config_types_with_validators_registered_after_make_type")
     if any(nd.get("shared_decorator") for _p, nd in [("", case["schema"])] + list(spec.walk(case["schema"]))):
         res.count("schemas_with_shared_validator_decorator")
     twin = None
@@ -349,6 +397,8 @@ def run(case, ctx, res):
             return
         if call.get("emptied"):
             res.count("loads_with_empty_required_values")
+        if call.get("flags_last"):
+            res.count("documents_listing_feature_flags_last")
         if err is not None:
             raised += 1
             res.count("calls_raised")
